@@ -42,14 +42,17 @@ BuildVerdict(L, t, T) ==
     ELSE "ok"
 BuildDrift(L, t, T) == t.res = "ok" /\ t.iter # IterRoot(T, FALSE)
 
-\* a filtered diff that mentions a path the model does not: say what that path is on either side
+\* a filtered diff that mentions a path the model does not (or misses one): say what that path
+\* is on either side
 KindAt(L, p) == IF p \in PathsOf(L) THEN "B" ELSE IF p \in Dirs(L) THEN "T" ELSE "-"
 LeastPath(S) == CHOOSE p \in S : \A q \in S : ~PathLess(q, p)
-PathsVerdict0(A, B, EP) ==
-    IF EP = {} THEN "paths-differs"
-    ELSE "paths-extra(" \o KindAt(A, LeastPath(EP)) \o ">" \o KindAt(B, LeastPath(EP)) \o ")"
+PathsVerdict0(A, B, EP, MP) ==
+    IF EP # {} THEN "paths-extra(" \o KindAt(A, LeastPath(EP)) \o ">" \o KindAt(B, LeastPath(EP)) \o ")"
+    ELSE IF MP # {} THEN "paths-missing(" \o KindAt(A, LeastPath(MP)) \o ">" \o KindAt(B, LeastPath(MP)) \o ")"
+    ELSE "paths-differs"
 PathsVerdict(A, B, c, exp) ==
-    PathsVerdict0(A, B, {ChangePath(c[k]) : k \in DOMAIN c} \ {ChangePath(exp[k]) : k \in DOMAIN exp})
+    PathsVerdict0(A, B, {ChangePath(c[k]) : k \in DOMAIN c} \ {ChangePath(exp[k]) : k \in DOMAIN exp},
+                        {ChangePath(exp[k]) : k \in DOMAIN exp} \ {ChangePath(c[k]) : k \in DOMAIN c})
 
 DiffVerdict(A, B, fl, P, t, exp) ==
     IF ~Valid(A) \/ ~Valid(B) THEN "input"
